@@ -310,6 +310,10 @@ class TorchGraph:
         self.values = {}
         for i, lf in enumerate(prog["leaves"]):
             t = torch.tensor(lf["vals"], dtype=tdt).reshape(lf["shape"])
+            if lf.get("layout") == "F" and t.ndim >= 2:
+                # same logical values, column-major memory (e.g. a transposed weight, a channels_last kernel): still a leaf
+                rev = list(range(t.ndim))[::-1]
+                t = t.permute(rev).contiguous().permute(rev)
             if lf["rg"]:
                 t.requires_grad_(True)
             self.leaves.append(t)
@@ -433,6 +437,8 @@ class _Builder:
     def add_leaf(self, shape, rg):
         i = len(self.leaves)
         self.leaves.append({"shape": list(shape), "rg": bool(rg), "vals": _grid_vals(self.rng, numel(shape))})
+        if len(shape) >= 2 and numel(shape) > max(shape) and self.rng.integers(0, 3) == 0:
+            self.leaves[-1]["layout"] = "F"  # non-contiguous parameter
         self.env.append({"ref": ["l", i], "shape": tuple(shape), "rg": bool(rg), "deps": frozenset([i]) if rg else frozenset(),
                          "leaf": True, "anc": frozenset()})
         return self.env[-1]
